@@ -143,7 +143,7 @@ def run(idx: Index, rep: Report, tier: str) -> None:
         ok = len(c.args) >= 2 and norm(c.args[1]) == "state"
         rep.check(ok, rule2, "apply_unsafe: simulated effect receives the pre-state", au.loc(c), construct=norm(c)[:100], function=au.qualname)
     rep.count("evaluate_sites", n_ev)
-    rep.require_min(rule2, "evaluate_sites", 3)
+    rep.require_min(rule2, "evaluate_sites", 2)
     # updates are applied to a child of the pre-state in one step, after all effects were evaluated
     p = None
     for n, c in cfg_nodes_with_call(cfg, "_evaluate_effect"):
